@@ -179,7 +179,9 @@ import sympy as sp  # noqa: E402
 
 
 _KNOWN_FLOATS = {float(c.evalf(30)): c for c in (sp.pi, 2 * sp.pi, sp.pi / 2, sp.E, sp.log(2), sp.log(10), 1 / sp.log(10), 1 / sp.log(2),
-                                                   sp.sqrt(2 * sp.pi), 1 / sp.sqrt(2 * sp.pi), sp.sqrt(sp.pi), 1 / sp.pi, sp.log(2 * sp.pi))}
+                                                   sp.sqrt(2 * sp.pi), 1 / sp.sqrt(2 * sp.pi), sp.sqrt(sp.pi), 1 / sp.pi, sp.log(2 * sp.pi),
+                                                   sp.sqrt(2), 1 / sp.sqrt(2), 2 / sp.sqrt(sp.pi), sp.sqrt(2 / sp.pi), sp.sqrt(sp.pi / 2), sp.log(2 * sp.pi) / 2,
+                                                   sp.log(sp.pi), sp.sqrt(3), 1 / sp.sqrt(sp.pi))}
 
 
 def _float_literal(f):
@@ -187,6 +189,10 @@ def _float_literal(f):
     mathematical'): the nearby simple rational, or -- for a float that is the correctly rounded square root of a rational with
     denominator <= 1000, such as np.sqrt(0.5) -- that square root"""
     import math
+    if f != f:
+        return sp.nan
+    if f in (float("inf"), float("-inf")):
+        return sp.oo if f > 0 else -sp.oo
     if f in _KNOWN_FLOATS:
         return _KNOWN_FLOATS[f]
     if -f in _KNOWN_FLOATS:
